@@ -901,3 +901,15 @@ MUTANTS += [
     dict(name='max_writable_condition_inverted', props=['C07'], rules=['CD2b'], desc='max_writable_frame_length subtracts on the wrong branch',
          edits=[(FWR, 'if available_num_bytes_in_block >= HEADER_LEN {', 'if !(available_num_bytes_in_block >= HEADER_LEN) {')]),
 ]
+
+MUTANTS += [
+    dict(name='entry_header_length_test_inverted', props=['C10', 'C08'], rules=['TAINT3'], desc='deserialize splits the header off before/without knowing the buffer is long enough',
+         edits=[(REC, '        if buffer.len() < HEADER_LEN {\n            error!(buffer=?buffer, "multiplexed record buffer too short");', '        if !(buffer.len() < HEADER_LEN) {\n            error!(buffer=?buffer, "multiplexed record buffer too short");')]),
+    dict(name='batch_header_length_test_removed', props=['C10', 'C08'], rules=['TAINT3'], desc='MultiRecord::next no longer checks that 12 header bytes remain',
+         edits=[(REC, """        if buffer.len() < HEADER_LEN {
+            // too short: corrupted
+            self.byte_offset = buffer.len();
+            return Some(Err(MultiRecordCorruption));
+        }
+""", "")]),
+]
